@@ -271,15 +271,63 @@ def Md.fromContainer (m : Mapping) (c : List Int) : Md := ⟨m, c⟩
 /-- `swap(x, y)`: containers (resp. data handles) and mappings are exchanged -/
 def Md.swap (x y : Md) : Md × Md := (⟨y.map, y.data⟩, ⟨x.map, x.data⟩)
 
-/-- `init_from_mdspan(other)`: nested loops over all index tuples, `container_[mapping_(ii...)] = other[ii...]` -/
-def initFromMdspan (a : Md) (other : Md) (tuples : List (List Nat)) : Md :=
+/-- `mdarray::size()` of an array object: the loop over the extents — the container is not consulted -/
+def Md.size (a : Md) : Nat := mdarraySize a.map.rank a.map.ext
+
+/-- `mdarray::container_size()` -/
+def Md.containerSize (a : Md) : Nat := a.data.length
+
+/-- `mdarray(mapping[, value])` with `Container = std::array<T,N>`:
+    `Impl::ContainerConstructionTraits<std::array<T,N>>::construct(size[, value])` asserts `size <= N` and returns all
+    `N` elements (value-)initialised — the container may be larger than the required span -/
+def Md.newArray (m : Mapping) (N : Nat) (v : Int := 0) : Option Md :=
+  if m.requiredSpan ≤ N then some ⟨m, List.replicate N v⟩ else none
+
+/-! ### views with an accessor policy -/
+
+/-- a view as its readers see it: the mapping and what `accessor.access(data_handle, off)` yields for an offset
+    (`none` = outside the storage); nothing is assumed about the accessor -/
+structure View where
+  map : Mapping
+  acc : Nat → Option Int
+
+/-- `operator()(ii...)` / `operator[]` of `mdspan`: `accessor_.access(data_handle_, mapping_(ii...))` -/
+def View.get? (v : View) (I : Arr) : Option Int := v.acc (v.map.offset I)
+
+/-- a view over flat storage through an accessor policy whose `access(p, i)` is `p[pos i]`
+    (`default_accessor`: `pos = id`; an accessor viewing every second entry from `start`: `pos i = 2*i + start`) -/
+structure AccView where
+  map : Mapping
+  pos : Nat → Nat
+  data : List Int
+
+def AccView.get? (a : AccView) (I : Arr) : Option Int := a.data[a.pos (a.map.offset I)]?
+
+/-- assignment through the reference returned by the accessor -/
+def AccView.set (a : AccView) (I : Arr) (v : Int) : AccView :=
+  { a with data := a.data.set (a.pos (a.map.offset I)) v }
+
+def AccView.toView (a : AccView) : View := ⟨a.map, fun i => a.data[a.pos i]?⟩
+
+/-- the view of an array / a view with `default_accessor`: `access(p, i) = p[i]` -/
+def Md.toView (a : Md) : View := ⟨a.map, fun i => a.data[i]?⟩
+
+/-- `init_from_mdspan(other)`: nested loops over all index tuples, `container_[mapping_(ii...)] = other[ii...]`
+    (`other[...]` goes through the accessor of the view) -/
+def initFromView (a : Md) (other : View) (tuples : List (List Nat)) : Md :=
   tuples.foldl (fun acc t => match other.get? (arr t) with
     | some v => acc.set (arr t) v
     | none => acc) a
 
-/-- `mdarray(const mdspan<…>& other)`: `container_(construct_container(other.size()))`, `mapping_(other.mapping())`, then copy -/
-def Md.fromMdspan (m : Mapping) (other : Md) : Md :=
-  initFromMdspan ⟨m, List.replicate (mdSize other.map.rank other.map.ext) 0⟩ other (allTuples (toList m.rank m.ext))
+def initFromMdspan (a : Md) (other : Md) (tuples : List (List Nat)) : Md := initFromView a other.toView tuples
+
+/-- `mdarray(const mdspan<…,Accessor>& other)`: `container_(construct_container(other.size()))`,
+    `mapping_(other.mapping())`, then copy — for a view with ANY accessor policy -/
+def Md.fromView (m : Mapping) (other : View) : Md :=
+  initFromView ⟨m, List.replicate (mdSize other.map.rank other.map.ext) 0⟩ other (allTuples (toList m.rank m.ext))
+
+/-- the same for a view with `default_accessor` over flat storage -/
+def Md.fromMdspan (m : Mapping) (other : Md) : Md := Md.fromView m other.toView
 
 /-! ### span.hh -/
 
